@@ -431,7 +431,9 @@ pub fn run_case(case: &Case) -> Vec<StepObs> {
 
 // ------------------------------------------------------------------ Coq serialisation
 fn ctext(s: &str) -> String {
-    crate::cstr(s)
+    // ASCII only (generators guarantee it); Coq string literal, `"` doubled
+    debug_assert!(s.is_ascii());
+    format!("(t \"{}\")", s.replace('"', "\"\""))
 }
 fn cfin(f: &Fin) -> String {
     match f {
@@ -505,7 +507,7 @@ pub fn cop(o: &Op) -> String {
     }
 }
 
-pub const COQ_HEADER: &str = "From IndModel Require Import SysCheck.\nOpen Scope N_scope.\n";
+pub const COQ_HEADER: &str = "From IndModel Require Import SysCheck.\nFrom Coq Require Import String.\nOpen Scope string_scope.\nOpen Scope N_scope.\n";
 pub const COQ_CASE_TY: &str = "syscase";
 pub const COQ_CHECKER: &str = "sys_check";
 
@@ -558,19 +560,17 @@ pub fn describe(case: &Case) -> String {
     s
 }
 
-// ------------------------------------------------------------------ a reference terminal (vt100 crate)
-pub struct Vt {
+// ------------------------------------------------------------------ reference terminals
+/// The vt100 crate as a reference for the VISIBLE screen (its scroll-back API cannot address rows
+/// further back than one screen, and it overflows on 1-row terminals in debug builds).
+pub struct Vt100 {
     pub p: vt100::Parser,
     pub w: u16,
     pub h: u16,
 }
-impl Vt {
+impl Vt100 {
     pub fn new(w: u16, h: u16) -> Self {
-        Vt {
-            p: vt100::Parser::new(h, w, 100_000),
-            w,
-            h,
-        }
+        Vt100 { p: vt100::Parser::new(h, w, 0), w, h }
     }
     pub fn feed(&mut self, ops: &[TOp]) {
         for o in ops {
@@ -605,37 +605,109 @@ impl Vt {
             }
         }
     }
+    pub fn visible_rows(&self) -> Vec<String> {
+        self.p.screen().rows(0, self.w).map(|r| r.trim_end().to_string()).collect()
+    }
+    pub fn cursor(&self) -> (usize, usize) {
+        let (r, c) = self.p.screen().cursor_position();
+        (r as usize, c as usize)
+    }
+}
+
+/// A small terminal with the same contract (autowrap with deferred wrap at the right edge, LF
+/// scrolls at the bottom row, cursor-up/down clamp to the visible screen, CR + erase-line for
+/// clear_line) and unlimited scroll-back.  It mirrors coq/model/Term.v; `bin/termcheck.rs`
+/// cross-validates it against the vt100 crate on the visible screen and cursor.
+pub struct Vt {
+    pub w: usize,
+    pub h: usize,
+    /// all rows ever, row 0 = oldest
+    pub rows: Vec<Vec<char>>,
+    /// index of the first visible row
+    pub top: usize,
+    pub r: usize,
+    /// column; == w means "wrap pending"
+    pub c: usize,
+}
+impl Vt {
+    pub fn new(w: u16, h: u16) -> Self {
+        Vt { w: w as usize, h: h as usize, rows: vec![vec![]], top: 0, r: 0, c: 0 }
+    }
+    fn line_feed(&mut self) {
+        if self.r == self.top + self.h - 1 {
+            self.top += 1;
+        }
+        self.r += 1;
+        while self.rows.len() <= self.r {
+            self.rows.push(vec![]);
+        }
+    }
+    fn put(&mut self, ch: char) {
+        if self.c >= self.w {
+            self.line_feed();
+            self.c = 0;
+        }
+        let row = &mut self.rows[self.r];
+        while row.len() <= self.c {
+            row.push(' ');
+        }
+        row[self.c] = ch;
+        self.c += 1;
+    }
+    pub fn feed(&mut self, ops: &[TOp]) {
+        for o in ops {
+            match o {
+                TOp::Up(n) => self.r = self.r.saturating_sub(*n).max(self.top),
+                TOp::Down(n) => {
+                    self.r = (self.r + *n).min(self.top + self.h - 1);
+                    while self.rows.len() <= self.r {
+                        self.rows.push(vec![]);
+                    }
+                }
+                TOp::Left(n) => self.c = self.c.min(self.w - 1).saturating_sub(*n),
+                TOp::Right(n) => self.c = (self.c + *n).min(self.w - 1),
+                TOp::Clear => {
+                    self.c = 0;
+                    self.rows[self.r].clear();
+                }
+                TOp::Line(s) => {
+                    for ch in s.chars() {
+                        self.put(ch);
+                    }
+                    self.c = 0;
+                    self.line_feed();
+                }
+                TOp::Str(s) => {
+                    for ch in s.chars() {
+                        self.put(ch);
+                    }
+                }
+                TOp::Flush => {}
+            }
+        }
+    }
+    fn row_string(r: &[char]) -> String {
+        r.iter().collect::<String>().trim_end().to_string()
+    }
     /// all rows, scroll-back first, trailing blanks trimmed, trailing empty rows dropped
     pub fn rows(&mut self) -> Vec<String> {
-        self.p.set_scrollback(usize::MAX);
-        let max = self.p.screen().scrollback();
-        let mut out = vec![];
-        for off in (1..=max).rev() {
-            self.p.set_scrollback(off);
-            let r = self.p.screen().rows(0, self.w).next().unwrap_or_default();
-            out.push(r.trim_end().to_string());
-        }
-        self.p.set_scrollback(0);
-        for r in self.p.screen().rows(0, self.w) {
-            out.push(r.trim_end().to_string());
-        }
+        let mut out: Vec<String> = self.rows.iter().map(|r| Self::row_string(r)).collect();
         while out.last().map_or(false, |r| r.is_empty()) {
             out.pop();
         }
         out
     }
-    /// number of rows scrolled off the top
+    pub fn visible_rows(&self) -> Vec<String> {
+        (self.top..self.top + self.h)
+            .map(|i| self.rows.get(i).map(|r| Self::row_string(r)).unwrap_or_default())
+            .collect()
+    }
     pub fn scrolled(&mut self) -> usize {
-        self.p.set_scrollback(usize::MAX);
-        let max = self.p.screen().scrollback();
-        self.p.set_scrollback(0);
-        max
+        self.top
     }
     /// absolute (row, col) of the cursor; col == w means "wrap pending"
     pub fn cursor(&mut self) -> (usize, usize) {
-        let sc = self.scrolled();
-        let (r, c) = self.p.screen().cursor_position();
-        (sc + r as usize, c as usize)
+        (self.r, self.c)
     }
 }
 
@@ -747,4 +819,226 @@ pub fn gen_gap(r: &mut Rng) -> u64 {
         1_000_000_000,
         3_600_000_000_000,
     ])
+}
+
+/// lines written by the closure passed to suspend: non-empty (an EMPTY line written by foreign code
+/// directly after a text-only draw only resolves the pending wrap at the right edge - terminal
+/// semantics, see DESIGN.md; indicatif's own empty lines are padded and do get their row)
+pub fn gen_suspend_lines(r: &mut Rng, w: usize) -> Vec<String> {
+    let k = r.below(3) as usize;
+    (0..k)
+        .map(|_| {
+            let t = gen_width_text(r, w);
+            if t.is_empty() {
+                "x".to_string()
+            } else {
+                t
+            }
+        })
+        .collect()
+}
+
+// ------------------------------------------------------------------ multi-bar history generator
+#[derive(Clone, Debug)]
+pub struct GenCfg {
+    pub max_bars: usize,
+    pub max_ops: usize,
+    /// refresh limiter of the MultiProgress target (None = every draw is painted)
+    pub hz: Option<u8>,
+    pub widths: Vec<u16>,
+    pub heights: Vec<u16>,
+    /// weights (out of 100) of op groups
+    pub w_log: u64,
+    pub w_finish: u64,
+    pub w_struct: u64,
+    /// bursts of updates with zero time gap (exhausts the limiters)
+    pub bursts: bool,
+    pub bottom: bool,
+}
+
+impl GenCfg {
+    pub fn default_multi() -> Self {
+        GenCfg {
+            max_bars: 5,
+            max_ops: 30,
+            hz: None,
+            widths: vec![1, 2, 3, 5, 8, 12, 40],
+            heights: vec![60, 200],
+            w_log: 15,
+            w_finish: 15,
+            w_struct: 20,
+            bursts: false,
+            bottom: true,
+        }
+    }
+}
+
+/// A history over one MultiProgress on the terminal; bars start detached (hidden) and are added.
+pub fn gen_multi_case(r: &mut Rng, cfg: &GenCfg) -> Case {
+    let w = *r.pick(&cfg.widths);
+    let h = *r.pick(&cfg.heights);
+    let wu = w as usize;
+    let nb = r.range(1, cfg.max_bars as u64) as usize;
+    // short single/two line templates so that several bars fit
+    let bars: Vec<BarInit> = (0..nb)
+        .map(|i| BarInit {
+            len: if r.chance(1, 4) { None } else { Some(r.below(30)) },
+            fin: gen_fin_short(r, wu),
+            tmpl: gen_small_tmpl(r, wu, i),
+            target: TInit::Hidden,
+        })
+        .collect();
+    #[derive(Clone, Copy, PartialEq)]
+    enum St {
+        Detached,
+        Member,
+        Removed,
+        Dropped,
+    }
+    let mut st = vec![St::Detached; nb];
+    let mut t = 0u64;
+    let mut ops: Vec<(u64, Op)> = vec![];
+    let n = r.range(3, cfg.max_ops as u64) as usize;
+    let mut burst_left = 0;
+    for _ in 0..n {
+        if burst_left > 0 {
+            burst_left -= 1;
+        } else {
+            t += if cfg.bursts && r.chance(1, 2) { *r.pick(&[0u64, 1, 1000]) } else { gen_gap(r).max(if cfg.bursts { 0 } else { 1_000_000 }) };
+            if cfg.bursts && r.chance(1, 6) {
+                burst_left = r.range(5, 30);
+            }
+        }
+        let members: Vec<usize> = (0..nb).filter(|&i| st[i] == St::Member).collect();
+        let detached: Vec<usize> = (0..nb).filter(|&i| st[i] == St::Detached).collect();
+        let roll = r.below(100);
+        let op = if (members.is_empty() || (roll < cfg.w_struct && !detached.is_empty())) && !detached.is_empty() {
+            let b = *r.pick(&detached);
+            st[b] = St::Member;
+            let loc = if members.is_empty() {
+                Loc::End
+            } else {
+                match r.below(6) {
+                    0..=1 => Loc::End,
+                    2 => Loc::Index(r.below(members.len() as u64 + 2) as usize),
+                    3 => Loc::FromBack(r.below(members.len() as u64 + 2) as usize),
+                    4 => Loc::After(*r.pick(&members)),
+                    _ => Loc::Before(*r.pick(&members)),
+                }
+            };
+            Op::Insert(loc, b)
+        } else if members.is_empty() {
+            Op::MPrintln(gen_multiline(r, wu))
+        } else if roll < cfg.w_struct {
+            match r.below(4) {
+                0 => {
+                    let b = *r.pick(&members);
+                    st[b] = St::Removed;
+                    Op::Remove(b)
+                }
+                1 if cfg.bottom => Op::SetAlign(r.chance(1, 2)),
+                _ => {
+                    let b = *r.pick(&members);
+                    st[b] = St::Dropped;
+                    Op::Drop(b)
+                }
+            }
+        } else if roll < cfg.w_struct + cfg.w_log {
+            match r.below(6) {
+                0..=1 => Op::MPrintln(gen_multiline(r, wu)),
+                2 => Op::Println(*r.pick(&members), gen_multiline(r, wu)),
+                3 => Op::MSuspend(gen_suspend_lines(r, wu)),
+                4 => Op::Suspend(*r.pick(&members), gen_suspend_lines(r, wu)),
+                _ => Op::MClear,
+            }
+        } else if roll < cfg.w_struct + cfg.w_log + cfg.w_finish {
+            let b = *r.pick(&members);
+            match r.below(4) {
+                0 => Op::FinishUsingStyle(b),
+                1 => {
+                    st[b] = St::Dropped;
+                    Op::Drop(b)
+                }
+                _ => Op::Finish(b, gen_fin_short(r, wu)),
+            }
+        } else {
+            let b = *r.pick(&members);
+            match r.below(12) {
+                0..=2 => Op::Tick(b),
+                3..=5 => Op::Inc(b, r.below(5)),
+                6 => Op::SetPos(b, r.below(40)),
+                7..=8 => Op::SetMsg(b, gen_short_text(r, wu)),
+                9 => Op::SetLen(b, r.below(40)),
+                10 => Op::Reset(b),
+                _ => Op::ForceDraw(b),
+            }
+        };
+        ops.push((t, op));
+    }
+    // often: drop everything that is left, in a random order (C04 kept clause)
+    if r.chance(1, 3) {
+        let mut left: Vec<usize> = (0..nb).filter(|&i| st[i] == St::Member).collect();
+        while !left.is_empty() {
+            let k = r.below(left.len() as u64) as usize;
+            let b = left.remove(k);
+            t += 1_000_000;
+            if r.chance(1, 2) {
+                ops.push((t, Op::Finish(b, gen_fin_short(r, wu))));
+                t += 1_000_000;
+            }
+            ops.push((t, Op::Drop(b)));
+        }
+    }
+    Case {
+        w,
+        h,
+        fail_at: vec![],
+        fail_from: None,
+        mp: TInit::Term(cfg.hz),
+        bars,
+        ops,
+    }
+}
+
+pub fn gen_short_text(r: &mut Rng, w: usize) -> String {
+    let n = match r.below(8) {
+        0 => 0,
+        1 => w,
+        2 => w + 1,
+        3 => w.saturating_sub(1),
+        _ => r.below(w as u64 + 3) as usize,
+    }
+    .min(30);
+    let mut s = gen_word(r, n);
+    if s.ends_with(' ') {
+        s.pop();
+        s.push('y');
+    }
+    if r.chance(1, 10) {
+        s.push_str("\nq");
+    }
+    s
+}
+pub fn gen_fin_short(r: &mut Rng, w: usize) -> Fin {
+    match r.below(5) {
+        0 => Fin::AndLeave,
+        1 => Fin::WithMessage(gen_short_text(r, w)),
+        2 => Fin::AndClear,
+        3 => Fin::Abandon,
+        _ => Fin::AbandonWithMessage(gen_short_text(r, w)),
+    }
+}
+/// small templates that identify the bar: "<letter>{pos}" [msg] ...
+pub fn gen_small_tmpl(r: &mut Rng, w: usize, i: usize) -> Vec<TPart> {
+    let id = ((b'A' + i as u8) as char).to_string();
+    let _ = w;
+    match r.below(7) {
+        0 => vec![TPart::Lit(id), TPart::Pos],
+        1 => vec![TPart::Lit(id), TPart::Msg],
+        2 => vec![TPart::Lit(id), TPart::Pos, TPart::Lit("/".into()), TPart::Len, TPart::Lit(" ".into()), TPart::Msg],
+        3 => vec![TPart::Lit(id), TPart::Spinner, TPart::NewLine, TPart::Msg],
+        4 => vec![TPart::Msg, TPart::NewLine, TPart::Lit(id), TPart::Pos],
+        5 => vec![TPart::Lit(id), TPart::Prefix, TPart::Msg, TPart::Pos],
+        _ => vec![TPart::Lit(id), TPart::Msg, TPart::NewLine, TPart::Lit("=".into()), TPart::Pos, TPart::NewLine],
+    }
 }
